@@ -510,6 +510,13 @@ def ts4(facts, rep):
                                                                '(found sort %s, index_core %s, true-store %s)' % (sort, core, tru))
         # the sort key is the interval start
         srt = [c for c in facts.closures_of(idx.path)]
+        # the key function may also be a named function passed by value (sort_by_key(Entry::start))
+        for bb, t in idx.calls():
+            if call_info(t) and call_info(t)['fn'].rsplit('::', 1)[-1].startswith('sort'):
+                for a in t['args'][1:]:
+                    kf = (a.get('k') or {}).get('res') or (a.get('k') or {}).get('fn')
+                    if kf and facts.bodies.get(kf) is not None:
+                        srt.append(facts.bodies[kf])
         keyk = 'ArrayBackedIntervalTree::index|sort-key-is-start'
         good = False
         for c in srt:
